@@ -50,6 +50,9 @@ func (s *strConvAccErr) Atof(key, val string) *float64 {
 		return nil
 	}
 	valFloat, err := strconv.ParseFloat(val, 64)
+	if err == nil && math.IsNaN(valFloat) {
+		err = fmt.Errorf("%q is not a number", val)
+	}
 	if err != nil {
 		s.err = fmt.Errorf("key=%s, err=%w", key, err)
 		return nil
@@ -63,6 +66,9 @@ func (s *strConvAccErr) AtofPosPtr(key, val string) *float64 {
 		return nil
 	}
 	valFloat, err := strconv.ParseFloat(val, 64)
+	if err == nil && math.IsNaN(valFloat) {
+		err = fmt.Errorf("%q is not a number", val)
+	}
 	if err != nil {
 		s.err = fmt.Errorf("key=%s, err=%w", key, err)
 		return nil
@@ -112,6 +118,9 @@ func (s *strConvAccErr) AtofInf(key, val string) float64 {
 		return math.Inf(+1)
 	}
 	valFloat, err := strconv.ParseFloat(val, 64)
+	if err == nil && math.IsNaN(valFloat) {
+		err = fmt.Errorf("%q is not a number", val)
+	}
 	if err != nil {
 		s.err = fmt.Errorf("key=%s, err=%w", key, err)
 		return 0
